@@ -337,7 +337,7 @@ func flagWireRule(c *Ctx, r *Report, an *Anchors, rule string, wires []flagWire)
 	for _, w := range wires {
 		construct := fmt.Sprintf("%s:wire(--%s->%s->%s)", cl.Name(), w.flag, w.setter, w.global)
 		setter := c.Fn(w.setter)
-		g := c.GlobalVar(w.global)
+		g := c.GlobalByRole(w.global)
 		if setter == nil || g == nil {
 			r.Undecided(rule, construct, "-", "setter or global not found")
 			continue
